@@ -13,9 +13,10 @@ func init() {
 // per shape); after a symbolic gap, scan 2 meets an arbitrary cluster.
 // Inside the cool-down of an accepted request scan 2 must not change the
 // group; after it (or after a refused request) it must act again.
-// shape: [nodes, scan-1 outcome (0 accepted, 1 refused by cloud max), class menu for scan 2]
+// shape: [nodes, scan-1 outcome (0 accepted, 1 refused by cloud max), class menu for scan 2,
+//         fleet (1 = launch-template mode: the cloud call of scan 1 blocks ~2 s until the instances are ready)]
 func VerifHarness_C02() {
-	N, refused, menu := verifShape(0), verifShape(1), verifShape(2)
+	N, refused, menu, fleet := verifShape(0), verifShape(1), verifShape(2), verifShape(3)
 	w := newWorld(0)
 	o := groupOpts(0)
 	cd := int64(2 + verifChoice("cooldown", 2)) // 2s or 3s (real sleeps in native replay)
@@ -27,7 +28,14 @@ func VerifHarness_C02() {
 		asgMax = int64(N)
 		o.MaxNodes = N + 6
 	}
+	if fleet == 1 {
+		o.AWS.LaunchTemplateID, o.AWS.LaunchTemplateVersion = "lt-1", "1"
+		o.AWS.FleetInstanceReadyTimeout = "2500ms"
+	}
 	g := w.addGroup(o, 0, asgMax, 0)
+	if fleet == 1 {
+		w.EC2.ReadyAfter = 2 // ready at the second 1 s poll: the request is accepted ~2 s after it was made
+	}
 	w.symNodes("", g, N, []int{tcNone}, false, []int{0}, false)
 	// scan 1: twice the capacity requested -> scale-up
 	w.symPods("", g, 2, 1, false, int64(N)*w.cpuPerNode, false)
@@ -35,7 +43,7 @@ func VerifHarness_C02() {
 	mark1 := len(w.J.Calls)
 	_ = w.ctrl.RunOnce()
 	j1 := w.summarize(g, mark1)
-	accepted := j1.increases > 0
+	accepted := j1.increases > 0 || (fleet == 1 && j1.added > 0)
 	if refused == 1 {
 		verifAssert("C02.harness-scan1-refused", !accepted)
 	} else {
